@@ -73,6 +73,9 @@ package polynomial
 //@ func Sum
 //@   nopanic[C05]
 //@   requires len(polynomials) > 0 && each(polynomials, q, expok(q))
+//@   modifies nothing
+//@   allocates
+//@   ensures result1 == nil ==> (result0 != nil && fresh(result0) && expok(result0))
 //@   loop 1: invariant summed != nil && each(summed.coefficients, c, c != nil) && fresh(summed.coefficients)
 
 //@ func (*Polynomial).Evaluate
